@@ -97,7 +97,21 @@ impl Ctx {
         if let Ok(mut g) = WATCH.lock() {
             *g = Some((self.prop.clone(), self.seed, self.case_no, format!("case {}", self.case_no), Instant::now()));
         }
-        let r = f();
+        // a panic of the crate on an input the property quantifies over is a failing input
+        let r = match catch_unwind(AssertUnwindSafe(f)) {
+            Ok(r) => r,
+            Err(e) => {
+                let msg = if let Some(s) = e.downcast_ref::<&str>() {
+                    s.to_string()
+                } else if let Some(s) = e.downcast_ref::<String>() {
+                    s.clone()
+                } else {
+                    "panic".to_string()
+                };
+                let what = WATCH.lock().ok().and_then(|g| g.as_ref().map(|t| t.3.clone())).unwrap_or_default();
+                fail("panic", what, "a result".into(), format!("panic: {}", msg))
+            }
+        };
         if let Ok(mut g) = WATCH.lock() {
             *g = None;
         }
@@ -1503,7 +1517,9 @@ fn main() {
     let seed: u64 = args[2].parse().unwrap_or(0);
     let budget: u64 = args[3].parse().unwrap_or(10000);
     let only_case = args.get(4).and_then(|s| s.parse::<u64>().ok());
-    std::panic::set_hook(Box::new(|_| {}));
+    if std::env::var_os("VERIF_REPLAY_VERBOSE").is_none() {
+        std::panic::set_hook(Box::new(|_| {}));
+    }
     start_watchdog();
     let mut ctx = Ctx {
         prop: prop.clone(),
